@@ -216,10 +216,87 @@ def untracked(iters, mode):
         children_empty = children_empty and q._children == ()
         req_false = req_false and (not q.requires_grad) and q.grad_fn is None
         p = q
+    if mode.startswith("ctx_"):
+        return context_loop(iters, mode)
     gc.collect()
     alive = sum(1 for r in refs if r() is not None)
     return {"kind": "untracked", "mode": mode, "iterations": iters, "earlier_operands_alive": alive, "children_empty": children_empty,
             "results_untracked": req_false}
+
+
+CONTEXT_MODES = ["ctx_nested_distinct", "ctx_shared_reentered", "ctx_nograd_in_retain", "ctx_retain_in_nograd", "ctx_exception_inside",
+                 "ctx_shared_reentered_exception"]
+
+
+def context_loop(iters, mode):
+    """acc = acc*0.5 + w (w requires grad) repeated inside a no_grad block that is combined with other context managers the way
+    user code does: nested distinct instances, ONE shared instance re-entered by a helper while it is active, no_grad inside
+    retain_grads and vice versa, an exception raised and caught inside the block.  Everything computed inside the OUTER block
+    is untracked: results keep nothing, earlier iterates are collected, and the modes are restored afterwards."""
+    from lib import impl
+    sg, np = impl.synapgrad, impl.np
+    impl.reset_modes()
+    w = sg.Tensor(np.array([0.5, 0.25]), requires_grad=True)
+    acc = sg.Tensor(np.array([1.0, 2.0]), requires_grad=True)
+    refs, flags = [], {"children_empty": True, "untracked": True, "mode_inside_ok": True}
+
+    def note(q, p):
+        refs.append(weakref.ref(p))
+        flags["children_empty"] = flags["children_empty"] and q._children == ()
+        flags["untracked"] = flags["untracked"] and (not q.requires_grad) and q.grad_fn is None
+        flags["mode_inside_ok"] = flags["mode_inside_ok"] and (impl.grad_mode() is False)
+
+    guard = sg.no_grad()
+
+    def helper_shared(x):
+        with guard:                      # the same instance, already active in the caller
+            return x * 0.5
+
+    def helper_distinct(x):
+        with sg.no_grad():
+            return x * 0.5
+
+    def body(step):
+        nonlocal acc
+        for i in range(iters):
+            q = step(acc)
+            note(q, acc)
+            acc = q
+
+    if mode == "ctx_nested_distinct":
+        with sg.no_grad():
+            body(lambda a: helper_distinct(a) + w)
+    elif mode == "ctx_shared_reentered":
+        with guard:
+            body(lambda a: helper_shared(a) + w)
+    elif mode == "ctx_nograd_in_retain":
+        with sg.retain_grads():
+            with sg.no_grad():
+                body(lambda a: a * 0.5 + w)
+    elif mode == "ctx_retain_in_nograd":
+        with sg.no_grad():
+            with sg.retain_grads():
+                body(lambda a: helper_distinct(a) + w)
+    elif mode in ("ctx_exception_inside", "ctx_shared_reentered_exception"):
+        g2 = guard if mode == "ctx_shared_reentered_exception" else sg.no_grad()
+
+        def step(a):
+            try:
+                with g2:
+                    raise ValueError("inside the block")
+            except ValueError:
+                pass
+            return a * 0.5 + w
+        with guard:
+            body(step)
+    else:
+        raise ValueError(mode)
+    restored = impl.grad_mode() is True and impl.retain_mode() is False
+    gc.collect()
+    alive = sum(1 for r in refs[1:] if r() is not None)       # refs[0] is the caller's own first tensor
+    impl.reset_modes()
+    return {"kind": "untracked", "mode": mode, "iterations": iters, "earlier_operands_alive": alive, "children_empty": flags["children_empty"],
+            "results_untracked": flags["untracked"], "tracking_off_inside_block": flags["mode_inside_ok"], "modes_restored_after": restored}
 
 
 def catalog():
